@@ -76,6 +76,8 @@ type OpenQ struct {
 	Cached   bool
 	NewTypes uint32 // batch: components that must be accessible on every entity of the query
 	Rel      int
+	// LateCount: Count() has not been called on this query yet; it is asked for the first time after some Next
+	LateCount bool
 }
 
 type Shadow struct {
